@@ -10,7 +10,7 @@ ALT_UNITS = {"kB": "MB", "MB": "GB", "GB": "MB", "TB": "GB", "min": "s", "hour":
 
 
 def reexpress(pair):
-    v, unit = pair
+    v, unit = pair[0], pair[1]
     alt = ALT_UNITS.get(unit)
     if alt is None: return None
     q = (v * u(unit)).to(u(alt))
@@ -23,7 +23,7 @@ def numeric_slots(spec):
     for sec in ("storages", "servers", "jobs", "steps", "devices", "networks", "countries"):
         for n, d in spec[sec].items():
             for k, v in d.items():
-                if isinstance(v, tuple) and len(v) == 2 and isinstance(v[1], str): out.append((sec, n, k))
+                if isinstance(v, tuple) and len(v) >= 2 and isinstance(v[1], str): out.append((sec, n, k))
     return out
 
 
@@ -148,7 +148,7 @@ def _c12_case(args):
     try:
         s1 = copy.deepcopy(spec)
         if key not in s1[sec][n]: s1[sec][n][key] = default
-        s2 = copy.deepcopy(s1); v, un = s1[sec][n][key]; s2[sec][n][key] = (v * kf, un)
+        s2 = copy.deepcopy(s1); v, un = s1[sec][n][key][:2]; s2[sec][n][key] = (v * kf, un)
         try:
             a = H.build(s1); b = H.build(s2)
         except Exception as ex:
